@@ -10,18 +10,24 @@ check("C13",
       "Coq proof over translated functions + correspondence (vm_compute) against real Negotiation", "DESIGN.md 5/C13")
 
 check("C05",
-      "Theorems (Coq, for an uninterpreted certificate hash and all roles / certificates / claims / dialled ids): evaluate = Accept t only if the "
-      "presented certificate hashes to t, the peer claimed t and (client) t is the dialled id; every mismatch rejects (exact iff); two-ended session: "
-      "any key ever registered at either end is proven, mismatches leave no connection on either side, honest pairs connect; invariant over all "
-      "histories of Tub.brokers; getReference and inbound reference URLs only over proven connections. The identity fragment of "
-      "evaluateNegotiationVersion1, the attach key of switchToBanana, the listener lookup and the inbound-url check are translated from the AST on "
-      "every run; the full role x certificate x claim x dialled-id x GET-id matrix (482 cells quick) and random table histories run on three real Tubs "
-      "over the in-memory network and are compared with the model by vm_compute; an oracle with an independently computed hash watches every "
+      "Theorems (Coq, for an uninterpreted certificate hash and all roles / presentations / claims / dialled ids): a hello is accepted for t only if "
+      "the LEAF certificate of the handshake hashes to t (extra certificates the peer sends along never matter), the peer claimed t and (client) t is "
+      "the dialled id; every mismatch rejects (exact iff); for every sequence of header blocks in every chunking from a peer that keeps sending after "
+      "a rejection, every key given to Tub.brokerAttached is proven (receive-loop invariant over the phases); two-ended session: any key ever "
+      "registered at either end is proven, mismatches leave no connection, honest pairs connect; invariant over all histories of Tub.brokers; "
+      "getReference and inbound reference URLs only over proven connections. Translated from the AST on every run: the identity fragment of "
+      "evaluateNegotiationVersion1, where receive_phase changes around it (handleENCRYPTED, error handler, non-deciding end), which certificate "
+      "crypto.peerFromTransport returns, the attach key of switchToBanana, the listener lookup, the inbound-url check. Run on real Tubs over the "
+      "in-memory network and compared with the model by vm_compute: the role x leaf x extra-chain x claim x dialled-id x GET-id matrix (968 cells "
+      "quick), ~2000 raw-peer scripts (all block kinds, all chunkings, in-flight bytes delivered after hang-up; phase, theirTubRef and attached keys "
+      "after every chunk), table histories interleaving Tub peers and raw peers; an oracle with an independently computed hash judges every "
       "brokerAttached and every table state; 23 malformed-block families, forged URLs, gifts.",
-      "Trusted: TLS proves possession of the reported certificate (peerFromTransport is supplied by the harness); Tubs always have a certificate; no "
-      "listener redirects; failure classes of the 101 / error-block / timeout paths tied by correspondence only. The anonymous-peer refusal rests on "
-      "`assert theirTubID` (would vanish under python -O).",
-      "Coq proof over AST-translated identity checks + exhaustive cell matrix and table histories on real Tubs (vm_compute correspondence)", "DESIGN.md 5/C05")
+      "Trusted: the TLS handshake proves possession of the LEAF certificate's key (the tree's own crypto.peerFromTransport and twisted's "
+      "Certificate.peerFromTransport run on a fake OpenSSL handle: leaf + extra chain certificates); Tubs always have a certificate; no listener "
+      "redirects; failure classes of the 101 / missing-certificate / error-block / timeout paths tied by correspondence only. The anonymous-peer "
+      "refusal rests on twisted raising CertificateError and on `assert theirTubID` (would vanish under python -O).",
+      "Coq proof over AST-translated identity checks and phase placement + exhaustive cell matrix, adversarial raw-peer scripts and table histories "
+      "on real Tubs (vm_compute correspondence)", "DESIGN.md 5/C05")
 
 check("C07",
       "Theorems (Coq): for EVERY handler semantics above the tokenizer, any two chunkings of the same byte string give the same events and final state "
@@ -84,7 +90,7 @@ check("C11",
       "its first 65 bytes; a rejected incomplete body empties the buffer and exactly the missing byte count is skipped; skipped bytes are neither "
       "inspected nor stored; if the tasters accept a body only when it fits B then the bytes held never reach 65 + max(B, SIZE_LIMIT); 65 header bytes "
       "without a type byte end the connection; the size-limited tasters of the banana.py transcription accept a sized body only within their limit; "
-      "the negotiation phase refuses more than 4096 buffered bytes (translated constant). Tie: the tokenizer model is the one validated by C07; here "
+      "the negotiation phase refuses more than 4096 buffered bytes (translated constant); index tokens: openerCheckToken of BOTH root unslicers is translated from broker.py / slicers/root.py by symbolic execution and proved to bound the first index token by the longest opentype and the class name after OPEN copyable by the longest registered Copyable name (2240-cell correspondence with the real methods). Tie: the tokenizer model is the one validated by C07; here "
       "oversize claims (limit+1 .. 2^448-1) under size-limited tasters are trickled in 1..4096-byte chunks on the real Banana and buffer length / "
       "skip count are compared with the model after every chunk. Direct oracle with the REAL constraint classes (ByteString, Integer, Number, "
       "Unicode, ListOf, TupleOf, DictOf, SetOf, nested) as root constraint: oversize bodies at leaf positions, high-water mark of len(buffer) against "
